@@ -41,6 +41,10 @@ def r1_pow_unit(facts, rep):
         ez = dom.decide(o.store, T("is_zero", Sym("pow.value")))
         key = "pow:unit:base_unit_empty=%s:exp_zero=%s" % (be, ez)
         good = unit == want and be is not None
+        if not good and ez is True and isinstance(unit, T) and unit.op.startswith("call:") and (
+                unit.op.endswith("BTreeMap::<K, V>::new") or unit.op.endswith("::default") or unit.op.endswith("Compound::empty")):
+            # x^0 written as the empty unit itself: what Compound::pow(_, 0) yields (every power becomes 0 and is dropped, below)
+            good = True
         if key in seen and good:
             continue
         seen.add(key)
